@@ -103,6 +103,22 @@ Theorem C30_written_is_agreed :
 Proof. exact written_is_agreed. Qed.
 Print Assumptions C30_written_is_agreed.
 
+(* The third way catchup feeds the ledger: fetchRound/syncCert, when agreement already holds the
+   certificate of round [cround] (committing to header digest [cdigest]) but not the block.
+   [fr_run]: any sequence of steps of that loop with any peer answers, peers, cancellation polls and
+   concurrent writes by others.  EnsureBlock is called at most once, and only with a block of that
+   round whose header digest is the one the certificate commits to and whose payset matches its
+   header -- independently of the configuration switches. *)
+Theorem C30_fetch_round_ensures_matching :
+  forall (Block Cert : Type) (blk_round : Block -> N) (cert_round : Cert -> N)
+         (contents_ok : Block -> bool) (blk_digest : Block -> N) (cround cdigest lat0 : N) ls st,
+  fr_run blk_round cert_round contents_ok blk_digest cround cdigest (fr_init lat0) ls = Some st ->
+  (forall b, In (FREnsure b) (fr_trace st) ->
+             blk_round b = cround /\ blk_digest b = cdigest /\ contents_ok b = true) /\
+  (n_ensure (fr_trace st) <= 1)%nat.
+Proof. exact fetch_round_ensures_matching. Qed.
+Print Assumptions C30_fetch_round_ensures_matching.
+
 (* The executable monitor predicate [spec_ok] (model/CatchupSpec.v; evaluated by bin/check on the
    implementation's own call log) means the property ... *)
 Theorem C30_spec_ok_sound : forall vp vc lat0 log flat fids,
